@@ -2,12 +2,12 @@
 
 from hypothesis import strategies as st
 
-from pbt import cellsim, gen, oracles
-from pbt.run import Violation
+from pbt import gen, oracles
+from pbt.props import _e1
 
 ID = 'C01'
 LEVEL = 'exploration'
-RULE = ('E1 histories: generated topology/allocations + op list over the pure '
+RULE = ('70% E1 histories (pure scheduler API) and 30% E2 histories (Master + ZkBackend + masterapi on the fake ZooKeeper, incl. reload/restore/restart paths of loader.py); E1 histories: generated topology/allocations + op list over the pure '
         'scheduler API; after every cycle the per-server sums of declared '
         'demand are compared with declared capacity and free_capacity, and '
         'both placement views are cross-checked. Non-trivial = a history in '
@@ -19,7 +19,7 @@ ASSUMPTIONS = [
     'servers are registered the way Loader.load_server does '
     '(add_node, state up, Partition.add)',
 ]
-TRUSTED = ['pbt/cellsim.py interpreter', 'pbt/oracles.py leaf recomputation']
+TRUSTED = ['pbt/cellsim.py', 'pbt/mastersim.py', 'pbt/fakezk.py', 'pbt/oracles.py']
 BUDGET = {'quick': 6000, 'thorough': 160000}
 
 PROFILE = {
@@ -27,30 +27,29 @@ PROFILE = {
 }
 
 
+E2_PROFILE = {'weights': {'app': 14, 'down': 3, 'up': 3, 'reboot': 3, 'resize': 4, 'rmsrv': 2, 'srv': 2, 'restart': 2, 'repart': 1}, 'force': ['resize']}
+
+
 def strategy(tier):
-    return gen.cell_case(PROFILE)
+    return gen.tagged(PROFILE, E2_PROFILE, e2_share=3)
+
+
+def watch(sim, info, flags):
+    for name, server in sim.servers().items():
+        decl = sim.decl_servers.get(name)
+        if decl is None:
+            continue
+        cap = decl['cap']
+        for dim in range(3):
+            used = cap[dim] - server.free_capacity[dim]
+            if cap[dim] and used * 2 >= cap[dim] and len(set(cap)) > 1:
+                flags['loaded'] = True
+    for name, (srv, _e, _i) in info.after.items():
+        bsrv = info.before.get(name, (None,))[0]
+        if bsrv is not None and bsrv != srv:
+            flags['churn'] = True
 
 
 def execute(case, stats):
-    flags = {'loaded': False, 'churn': False}
-
-    def observe(sim, info):
-        try:
-            oracles.c01(sim, info)
-        except Violation:
-            raise
-        for name, server in sim.servers().items():
-            cap = sim.decl_servers[name]['cap']
-            for dim in range(3):
-                used = cap[dim] - server.free_capacity[dim]
-                if cap[dim] and used * 2 >= cap[dim] and \
-                        len(set(cap)) > 1:
-                    flags['loaded'] = True
-        for name, (srv, _e, _i) in info.after.items():
-            bsrv = info.before[name][0]
-            if bsrv is not None and bsrv != srv:
-                flags['churn'] = True
-
-    sim = cellsim.CellSim(case, observers=[observe])
-    sim.run(stats)
-    return flags['loaded'] and flags['churn']
+    flags = _e1.run_case(case, stats, [oracles.c01], watch)
+    return bool(flags.get('loaded') and flags.get('churn'))
